@@ -104,7 +104,7 @@ def run(ctx):
         ctx.say("NOTE: plan %s did not finish within 5 s (hang): only prefix checks applied to its runs" % c["id"])
 
     # ---- evidence
-    H = dict(outcomes={}, overrun_flavours={}, retries={}, script_len={}, calls={}, status={}, kinds={})
+    H = dict(outcomes={}, overrun_flavours={}, response_flavours={}, retries={}, script_len={}, calls={}, status={}, kinds={})
     combos = set()
     ran = runs = never = 0
     for c in live:
@@ -121,6 +121,9 @@ def run(ctx):
     longs = [c for c in live if c["kind"] == "long"]
     ctx.oblige("long-budget family (retries 31, 32, 33, 40, 64): every action ran",
                bool(only) or (len(longs) > 0 and all(c["dist"].get("never_ran", 1) == 0 for c in longs)))
+    lates = [c for c in live if c["kind"] == "late"]
+    ctx.oblige("late-answer family (overrun ignoring the cancellation, answering inside the slow retry): plans ran",
+               bool(only) or (len(lates) > 0 and all(c["dist"].get("ran", 0) > 0 for c in lates)))
     samples = []
     for c in live[:1] + live[-2:]:
         o = c["observed"]["actions"][:3]
@@ -145,7 +148,7 @@ def run(ctx):
         dropped_kinds=fw.histogram(k for c in dropped for k in (c["dist"].get("dropped_kinds") or {})),
         rerun_causes=fw.histogram(k for c in cases for k in ((c.get("dist") or {}).get("rerun_causes") or [])),
         reruns=fw.histogram(c["dist"].get("round", 0) for c in live),
-        distribution=dict(outcomes_delivered=H["outcomes"], overrun_flavours=H["overrun_flavours"], retries=H["retries"], script_len=H["script_len"],
+        distribution=dict(outcomes_delivered=H["outcomes"], overrun_flavours=H["overrun_flavours"], response_flavours=H["response_flavours"], retries=H["retries"], script_len=H["script_len"],
                           invocations_per_run=H["calls"], final_status=H["status"], kinds=H["kinds"]),
         coq_shards=[dict(shard=i["shard"], n=i["n"], rc=i["rc"], wall_s=round(i["wall"], 1)) for i in infos],
     ), assumptions=[
@@ -158,8 +161,10 @@ def run(ctx):
         "return within 4 ms of the deadline). not-entered (attempt without invocation: the worker pool gave up) is re-run too but "
         "compared as it is if it persists; likewise late_notice (a prompt-flavour overrun whose late answer the engine recorded, "
         "with the attempt write >= 8 ms after the deadline). Overrun flavours: the plugin returns only after the engine's write of "
-        "that attempt (cap 150 ms), or answers 8 ms after the cancellation (good response / permanent error); the model expects "
-        "the timeout attempt for both",
+        "that attempt (cap 150 ms), or answers 8 ms after the cancellation (good response / permanent error); or IGNORES the cancellation and answers 15-25 ms after the deadline while a slow retry (answers "
+        "after 40 ms; timeouts 60-70 ms there) is in flight; the model expects the timeout attempt for all three. Response "
+        "flavours: PGood = the declared type (a value of Resp; for the plugin that declares *AltResp a pointer or a TYPED-NIL "
+        "pointer of that type), PBad = a non-nil interface of another dynamic type (value, typed-nil pointer, nil map, nil slice)",
         "modelled, not verified: Backoff.Retry of github.com/Azure/retry (transcribed), the retry policy has no MaxAttempts, the plan "
         "context is not cancelled during a run. Not covered: the back-off durations; recovered (Running) actions (C09/C10)",
     ])
